@@ -30,8 +30,10 @@ from . import findings as _findings
 from .ctx import dumps
 
 WORK = os.path.join(HERE, ".work")
-REPLAYS = os.path.join(HERE, "replays")
-EVID = os.path.join(HERE, "evidence")
+# (selftest/try_patch.sh redirects both, so that a run against a deliberately broken tree never overwrites the
+# evidence / replay files of the registered checks)
+REPLAYS = os.environ.get("VERIF_REPLAY_DIR") or os.path.join(HERE, "replays")
+EVID = os.environ.get("VERIF_EVIDENCE_DIR") or os.path.join(HERE, "evidence")
 
 
 def load_prop(pid):
